@@ -21,6 +21,7 @@ CONSTANTS Addrs,        \* source addresses, e.g. {"A","B","C"}
           MaxPks,       \* probation settings explored (0 = immediate latch)
           MaxLen,       \* bound on the number of actions in a behaviour
           InitRemotes,  \* configured initial remote: subset of Addrs \cup {"Unset"}
+          InitLatch,    \* subset of BOOLEAN: TRUE = behaviours that start with enable_latch_on_rtp already called
           Deviations    \* subset of {"StaleCompareAtCommit","TimeoutBeforeConsecutive"}
 
 VARIABLES remote,       \* RTP send address: element of Addrs or "Unset"
@@ -51,13 +52,13 @@ FreshProb(on, mp) == IF on /\ mp > 0 THEN EmptyProb ELSE NoProb
 Init ==
   /\ remote \in InitRemotes /\ initRemote = remote
   /\ rtcpRemote = "None"
-  /\ latchOn = FALSE /\ rtpLatched = FALSE /\ rtcpLatched = FALSE
+  /\ latchOn \in InitLatch /\ rtpLatched = FALSE /\ rtcpLatched = FALSE
   /\ expected = 0
   /\ maxPk \in MaxPks
-  /\ prob = NoProb
+  /\ prob = FreshProb(latchOn, maxPk)
   /\ legit = {}
   /\ nMatch = 0
-  /\ hist = <<>>
+  /\ hist = IF latchOn THEN <<[op |-> "enable"]>> ELSE <<>>
   /\ last = [kind |-> "init"]
 
 ---------------------------------------------------------------------------
